@@ -301,7 +301,7 @@ def fresh_strings(x):
 def gen_objlist(r, containers=False):
     kind = r.choice(["plain", "ci", "ci", "ci-nofactory"])
     pool = r.choice(POOLS)
-    key = r.choice(["group", "name", "status"])
+    key = r.choice(["group", "name", "status", "name", "stra\u00dfe", "\u03bf\u03b4\u03cc\u03c2", "gr\u00f6\u00dfe", "\u017f"])
     n = r.randint(0, 7)
     lacking = r.choice([0, 0, 1, 2, n])
     lst = []
